@@ -15,6 +15,7 @@ void GMGPolar::build_rhs_f(const Level& level, Vector<double>& rhs_f)
 // ----------------------------------------- //
 #pragma omp for nowait
         for (int i_r = 0; i_r < grid.numberSmootherCircles(); i_r++) {
+            VERIF_ITER(i_r);
             double r = grid.radius(i_r);
             for (int i_theta = 0; i_theta < grid.ntheta(); i_theta++) {
                 double theta     = grid.theta(i_theta);
@@ -39,6 +40,7 @@ void GMGPolar::build_rhs_f(const Level& level, Vector<double>& rhs_f)
 // --------------------------------------- //
 #pragma omp for
         for (int i_theta = 0; i_theta < grid.ntheta(); i_theta++) {
+            VERIF_ITER(i_theta);
             double theta     = grid.theta(i_theta);
             double sin_theta = sin_theta_cache[i_theta];
             double cos_theta = cos_theta_cache[i_theta];
@@ -75,6 +77,7 @@ void GMGPolar::discretize_rhs_f(const Level& level, Vector<double>& rhs_f)
 // ---------------------------------------------- //
 #pragma omp for nowait
             for (int i_r = 0; i_r < grid.numberSmootherCircles(); i_r++) {
+                VERIF_ITER(i_r);
                 double r = grid.radius(i_r);
                 for (int i_theta = 0; i_theta < grid.ntheta(); i_theta++) {
                     double theta = grid.theta(i_theta);
@@ -100,6 +103,7 @@ void GMGPolar::discretize_rhs_f(const Level& level, Vector<double>& rhs_f)
 // -------------------------------------------- //
 #pragma omp for nowait
             for (int i_theta = 0; i_theta < grid.ntheta(); i_theta++) {
+                VERIF_ITER(i_theta);
                 double theta = grid.theta(i_theta);
                 for (int i_r = grid.numberSmootherCircles(); i_r < grid.nr(); i_r++) {
                     double r = grid.radius(i_r);
@@ -133,6 +137,7 @@ void GMGPolar::discretize_rhs_f(const Level& level, Vector<double>& rhs_f)
 // ---------------------------------------------- //
 #pragma omp for nowait
             for (int i_r = 0; i_r < grid.numberSmootherCircles(); i_r++) {
+                VERIF_ITER(i_r);
                 double r = grid.radius(i_r);
                 for (int i_theta = 0; i_theta < grid.ntheta(); i_theta++) {
                     double theta     = grid.theta(i_theta);
@@ -170,6 +175,7 @@ void GMGPolar::discretize_rhs_f(const Level& level, Vector<double>& rhs_f)
 // -------------------------------------------- //
 #pragma omp for nowait
             for (int i_theta = 0; i_theta < grid.ntheta(); i_theta++) {
+                VERIF_ITER(i_theta);
                 double theta     = grid.theta(i_theta);
                 double sin_theta = sin_theta_cache[i_theta];
                 double cos_theta = cos_theta_cache[i_theta];
